@@ -115,6 +115,10 @@ void run_forms(const Case& c, Result& r)
         Outcome rs = form_counting_sequence(X, ps, cnt, seq);
         if (rs.what != "ok")
             r.violation(m + ":permuted-sequence:throws", "hand-written callbacks over a permuted index sequence threw " + rs.what + ": " + rs.message);
+        else if (!rs.out.embedding.allFinite())
+            // (numerically disconnected data, e.g. Diffusion Map with a width far below the squared distances: psi_0 has exact
+            // zeros whose position depends on rounding; nothing to compare against)
+            r.inconclusive.push_back("embedding over the permuted sequence not finite");
         else
         {
             auto compare_seq = [&](const Outcome& o, const std::string& form) {
